@@ -314,6 +314,14 @@ def S3(ctx: Ctx) -> RuleResult:
                 r.ok(f'{key} via {"children()" if via_children else sorted(got) or "no slots"} [{fi.cls.name}]')
             else:
                 r.fail(key, f'{q} resolved in {fi.cls.name} does not consult slot(s) {sorted(need - got)}', fi.where, sorted(need), sorted(got))
+            # a boolean "occurs anywhere below" query of a node with children answers False only through its children
+            if q in BOOL_QUERIES and need:
+                for o in outs:
+                    asked = any(isinstance(x, Call) and call_name(x) == q for g, _ in o.guards for x in walk(g)) or \
+                        any(isinstance(x, Call) and call_name(x) == q for e in o.effects for x in walk(e)) or \
+                        any(isinstance(e, Loop) and any(isinstance(x, Call) and call_name(x) == q for gs in [rg for rg, _ in e.returns] + [pp[0] for pp in e.paths] for g, _ in gs for x in walk(g)) for e in o.effects)
+                    if o.kind == 'return' and o.value == Const(False) and not asked:
+                        r.fail(key + ':shortcut', f'{q} answers False under [{guards_repr(norm_guards(o.guards))[:100]}] without asking the children: occurrences below this node are not reported', fi.where)
             # combiner polarity
             for o in outs:
                 if o.kind != 'return' or o.value is None:
